@@ -647,6 +647,39 @@ func parseLayers(j judge, tier string) []Layer {
 			},
 		})
 	}
+	// B3: long sparse literals: a far-away non-zero digit must still act as sticky
+	{
+		precs := []uint32{1, 2, 19, 20, 34, 38, 57}
+		layers = append(layers, Layer{
+			Name:   "B3-long-sparse",
+			Units:  len(precs),
+			Bounds: "literals of prec digits (last kept digit even/odd) + rounding digit in {0,5,9} + j zeros (j = 0..100) + one non-zero digit, radix point after the first digit or none, precision in {1,2,19,20,34,38,57} × 6 modes: a digit up to 100 places below the rounding position must still be seen",
+			Run: func(c *Ctx, u int) {
+				p := precs[u]
+				for _, last := range []string{"2", "3", "9"} {
+					head := strings.Repeat("1", int(p)-1) + last
+					if last == "9" {
+						head = strings.Repeat("9", int(p))
+					}
+					for _, rd := range []string{"0", "5", "9", "4"} {
+						for jz := 0; jz <= 100; jz++ {
+							if c.Done() {
+								return
+							}
+							for _, tail := range []string{"1", ""} {
+								ds := head + rd + strings.Repeat("0", jz) + tail
+								for _, s := range []string{ds, ds[:1] + "." + ds[1:] + "e-7", "-0.00" + ds} {
+									for _, m := range M6 {
+										parseCase(c, j, s, 0, p, m, false)
+									}
+								}
+							}
+						}
+					}
+				}
+			},
+		})
+	}
 	if j == judgeValue {
 		// C: binary-flavoured literals
 		type bm struct {
